@@ -22,7 +22,7 @@ class Exploration:
         s.m = m; s.cfg = cfg; s.concrete = concrete
         s.threads = cfg.get('threads', [])
         s.NT = len(s.threads); s.K = cfg.get('K', 0)
-        vals.name.defs = []; vals.name.n = 0
+        vals.name.defs = []; vals.name.n = 0; vals.SIB.clear()
         opts = dict(cfg.get('opts', {}))
         s.e = Engine(m, s.NT, concrete=concrete, opts=opts)
         s.e.sequential = (s.NT == 0)
@@ -40,9 +40,8 @@ class Exploration:
         e.nondet = lambda w, label: _nondet_named(e, w, label)
         def run_seq(fname, guard, stepno):
             e.stepno = stepno
-            out = e.run(MAIN, {((fname, 0, 0),): guard}, stop_visible=False)
-            e.commit_regs(MAIN, [])
-            return out.get((('done',),), False)
+            out = e.run(MAIN, {((fname, 0, 0),): (guard, [{}])}, stop_visible=False)
+            return out.get((('done',),), (False, None))[0]
         # global constructors
         gc = s.m.globals.get('llvm.global_ctors')
         if gc is not None and gc['init'] is not None and gc['init'].kind == 'agg':
@@ -53,10 +52,10 @@ class Exploration:
                     run_seq(fn.name, True, -2)
         live = True
         if s.cfg.get('setup'): live = run_seq(s.cfg['setup'], True, -1)
-        ctrl = [{((f, 0, 0),): live} for f in s.threads]
+        ctrl = [{((f, 0, 0),): (live, [{}])} for f in s.threads]
         e.ctrlsets = ctrl
         DONE = (('done',),)
-        def done_g(t): return ctrl[t].get(DONE, False)
+        def done_g(t): return ctrl[t].get(DONE, (False, None))[0]
         def thread_en(t):
             st = e.tstate[t]; pk = st.get('parked', False)
             if pk is False: return True
@@ -65,9 +64,9 @@ class Exploration:
             return gor(gnot(pk), icmp('ne', cur, v, sz * 8))
         def runnable_g(t):
             r = False
-            for c, g in ctrl[t].items():
+            for c, (g, env) in ctrl[t].items():
                 if c == DONE: continue
-                r = gor(r, gand(g, e.enabled(t, c)))
+                r = gor(r, gand(g, e.enabled(t, c, env)))
             return gand(r, thread_en(t))
         sbits = max(1, (NT).bit_length())
         pre_cnt = None; prev = None; prev_run = None
@@ -108,19 +107,23 @@ class Exploration:
                 sel = eqs(t)
                 if sel is False: continue
                 new = {}; starts = {}
-                for c, g in ctrl[t].items():
-                    if c == DONE: new[c] = gor(new.get(c, False), g); continue
+                def add(c, g, env):
+                    if g is False: return
+                    o = new.get(c)
+                    if o is None: new[c] = (g, env)
+                    else: new[c] = (gor(o[0], g), e.merge_env(c, o[0], o[1], g, env) if c != DONE else None)
+                for c, (g, env) in ctrl[t].items():
+                    if c == DONE: add(c, g, None); continue
                     gs = name(gand(g, sel))
-                    if gs is False: new[c] = gor(new.get(c, False), g); continue
-                    new[c] = gor(new.get(c, False), gand(g, gnot(sel)))
-                    starts[c] = gs
+                    if gs is False: add(c, g, env); continue
+                    add(c, gand(g, gnot(sel)), env)
+                    starts[c] = (gs, env[:-1] + [dict(env[-1])])
                 st = e.tstate[t]
                 if st.get('parked', False) is not False: st['parked'] = ite_g(sel, False, st['parked'])
-                for c2, g2 in e.run(t, starts).items(): new[c2] = gor(new.get(c2, False), g2)
-                e.commit_regs(t, [c for c, g in new.items() if g is not False])
+                for c2, (g2, env2) in e.run(t, starts).items(): add(c2, g2, env2)
                 ctrl[t].clear()
-                for c, g in new.items():
-                    if g is not False: ctrl[t][c] = name(g)
+                for c, (g, env) in new.items():
+                    if g is not False: ctrl[t][c] = (name(g), env)
             s.steps_used = k + 1
             if verbose: print('step %d: ctrl %s ins=%d cells=%d checks=%d defs=%d t=%.1fs' % (k, [len(c) for c in ctrl], e.stats['ins'], len(e.mem.mem), len(e.checks), len(name.defs), time.time() - t0), flush=True)
             if all(len(c) == 1 and DONE in c for c in ctrl): break
@@ -191,7 +194,7 @@ class Exploration:
                 out['violated'] = [m_ for m_, (g, k) in e.checks.items() if g is not False and z3.is_true(ev(g))]
                 out['ctrl'] = []
                 for t in range(s.NT):
-                    for c2, g in e.ctrlsets[t].items():
+                    for c2, (g, _env) in e.ctrlsets[t].items():
                         if z3.is_true(ev(g)): out['ctrl'].append([t, [list(x) for x in c2[:4]]])
             out['maxrss_mb'] = resource.getrusage(resource.RUSAGE_SELF).ru_maxrss // 1024
             results[q['name']] = out
@@ -258,7 +261,7 @@ def replay(ll_path, cfg, cex, module=None):
     msgs = [v[0] for v in e.cviol]
     out = dict(violations=msgs, trace_len=len(e.trace), trace=['s%d t%d %s: %s' % x for x in e.trace][:400])
     if cex['kind'] == 'deadlock':
-        unfinished = [t for t in range(X.NT) if X.e.ctrlsets[t].get((('done',),), False) is not True]
+        unfinished = [t for t in range(X.NT) if X.e.ctrlsets[t].get((('done',),), (False, None))[0] is not True]
         out['unfinished_threads'] = unfinished
         out['confirmed'] = bool(unfinished) and X.quiescent is True
     else:
